@@ -269,7 +269,7 @@ fn strategy(prop: Prop, camp: Campaign) -> impl Strategy<Value = Case> {
     // double drop inside the library is a double free that kills the process, so that the
     // property's own oracle gets to decide on the ledger-tracked and plain kinds.
     let safe = std::env::var("VERIF_SAFE_KINDS").map(|v| v == "1").unwrap_or(false);
-    let kinds: Vec<u8> = camp.kinds.iter().copied().filter(|k| !(safe && *k == 2)).collect();
+    let kinds: Vec<u8> = camp.kinds.iter().copied().filter(|k| !(safe && (*k == 2 || *k == 9))).collect();
     let kinds = if kinds.is_empty() { camp.kinds.to_vec() } else { kinds };
     (0..kinds.len(), 0u8..8, 0u8..5, 0u8..4, any::<u8>(), proptest::collection::vec(any::<[u8; 4]>(), 0..=max)).prop_map(move |(ki, cap, cap2, us, mode, ops)| {
         let kind = kinds[ki];
